@@ -1,5 +1,5 @@
 //! C38 — each implemented ledger rule rejects transactions that break only it (DESIGN §C38).
-use crate::forge::{self, script_addr, EraK, Forged, Spec, Tweaks, BLOCK_SLOT};
+use crate::forge::{self, block_slot, script_addr, EraK, Forged, Spec, Tweaks};
 use crate::view::{self, TxView};
 use crate::{gen, pp, run};
 use proptest::prelude::*;
@@ -12,6 +12,8 @@ pub enum Mut {
     EmptyInputs,
     RemoveInputUtxo,
     RemoveCollateralUtxo,
+    RemoveReferenceUtxo,
+    DropScriptReference,
     SlotPastTtl,
     SlotBeforeValidityStart,
     RaiseMinAdaPerOutput,
@@ -23,7 +25,9 @@ pub enum Mut {
     CollateralToScriptAddress,
     CollateralWithAssets,
     CollateralTooSmall,
+    CollateralJustBelowMinimum,
     RaiseCollateralPercentage,
+    PercentageJustAboveCollateral,
     WrongTotalCollateral,
     DropNativeScriptOfMint,
     DropPlutusScript,
@@ -39,11 +43,11 @@ pub enum Mut {
     DropCostModel,
 }
 
-pub const ALL: [Mut; 28] = [
-    Mut::EmptyInputs, Mut::RemoveInputUtxo, Mut::RemoveCollateralUtxo, Mut::SlotPastTtl, Mut::SlotBeforeValidityStart,
+pub const ALL: [Mut; 32] = [
+    Mut::EmptyInputs, Mut::RemoveInputUtxo, Mut::RemoveCollateralUtxo, Mut::RemoveReferenceUtxo, Mut::DropScriptReference, Mut::SlotPastTtl, Mut::SlotBeforeValidityStart,
     Mut::RaiseMinAdaPerOutput, Mut::LowerMaxValueSize, Mut::EnvNetworkFlip, Mut::BodyNetworkIdWrong, Mut::OutputNetworkWrong,
-    Mut::NoCollateralAllowed, Mut::CollateralToScriptAddress, Mut::CollateralWithAssets, Mut::CollateralTooSmall,
-    Mut::RaiseCollateralPercentage, Mut::WrongTotalCollateral, Mut::DropNativeScriptOfMint, Mut::DropPlutusScript, Mut::DropDatum,
+    Mut::NoCollateralAllowed, Mut::CollateralToScriptAddress, Mut::CollateralWithAssets, Mut::CollateralTooSmall, Mut::CollateralJustBelowMinimum,
+    Mut::RaiseCollateralPercentage, Mut::PercentageJustAboveCollateral, Mut::WrongTotalCollateral, Mut::DropNativeScriptOfMint, Mut::DropPlutusScript, Mut::DropDatum,
     Mut::DropRedeemer, Mut::AlterAuxDataKeepHash, Mut::WrongAuxHash, Mut::DropAuxDataKeepHash, Mut::AuxDataWithoutHash, Mut::HashWithoutAuxData, Mut::WrongScriptDataHash,
     Mut::AlterCostModel, Mut::DropCostModel,
 ];
@@ -100,10 +104,25 @@ fn apply(m: Mut, spec: &Spec, w: &mut World) -> bool {
             w.f.utxos.remove(i);
             true
         }
+        Mut::RemoveReferenceUtxo => {
+            // only reference inputs that are listed in the body (a dropped script reference is not)
+            let Some(v) = TxView::parse(&w.tx) else { return false };
+            let listed = v.inputs(18);
+            let Some(i) = w.f.utxos.iter().position(|u| u.role == "reference" && listed.iter().any(|(t, ix)| t.as_slice() == u.txid.as_slice() && *ix == u.idx)) else { return false };
+            w.f.utxos.remove(i);
+            true
+        }
+        Mut::DropScriptReference => {
+            if !(plutus && w.f.script_by_reference) {
+                return false;
+            }
+            w.tw.drop_script_reference = true;
+            true
+        }
         Mut::SlotPastTtl => {
             let ttl = match (era, spec.ttl_slack) {
-                (_, Some(s)) => BLOCK_SLOT + s as u64,
-                (EraK::Shelley | EraK::Allegra | EraK::Mary, None) => BLOCK_SLOT + 1000,
+                (_, Some(s)) => block_slot(era) + s as u64,
+                (EraK::Shelley | EraK::Allegra | EraK::Mary, None) => block_slot(era) + 1000,
                 _ => return false,
             };
             w.ppt.block_slot = Some(ttl + 1);
@@ -112,7 +131,7 @@ fn apply(m: Mut, spec: &Spec, w: &mut World) -> bool {
         Mut::SlotBeforeValidityStart => {
             // the lower bound is implemented from Alonzo on
             let (Some(b), true) = (spec.validity_back, era.alonzo_plus()) else { return false };
-            let start = BLOCK_SLOT - b as u64;
+            let start = block_slot(era) - b as u64;
             if start == 0 {
                 return false;
             }
@@ -187,6 +206,42 @@ fn apply(m: Mut, spec: &Spec, w: &mut World) -> bool {
             u.output = cx::write(&n);
             true
         }
+        Mut::CollateralJustBelowMinimum | Mut::PercentageJustAboveCollateral => {
+            // the exact boundary of  paid * 100 >= fee * percentage  (paid = collateral inputs - collateral return)
+            if !plutus {
+                return false;
+            }
+            let Some(p) = &spec.plutus else { return false };
+            let ret = if era.babbage_plus() && p.collateral_return { p.collateral_coin / 4 } else { 0 };
+            let pct = w.ppt.collateral_percentage.unwrap_or(150) as u128;
+            let fee = w.f.fee as u128;
+            if fee == 0 {
+                return false;
+            }
+            if m == Mut::PercentageJustAboveCollateral {
+                let paid = (p.collateral_coin - ret) as u128;
+                let need = paid * 100 / fee + 1;
+                if need > u32::MAX as u128 {
+                    return false;
+                }
+                w.ppt.collateral_percentage = Some(need as u32);
+                return true;
+            }
+            let min_paid = (fee * pct).div_ceil(100);
+            if min_paid == 0 {
+                return false;
+            }
+            let new_coin = (min_paid - 1) as u64 + ret;
+            let Some(u) = w.f.utxos.iter_mut().find(|u| u.role == "collateral") else { return false };
+            let Ok(mut n) = cx::read(&u.output) else { return false };
+            if n.as_array().is_some() {
+                n.as_array_mut().unwrap()[1] = cx::uint(new_coin);
+            } else {
+                n.map_set(1, cx::uint(new_coin));
+            }
+            u.output = cx::write(&n);
+            true
+        }
         Mut::RaiseCollateralPercentage => {
             if !plutus {
                 return false;
@@ -207,7 +262,7 @@ fn apply(m: Mut, spec: &Spec, w: &mut World) -> bool {
             }
             drop_wit_key(w, &[1])
         }
-        Mut::DropPlutusScript => plutus && drop_wit_key(w, &[3, 6, 7]),
+        Mut::DropPlutusScript => plutus && !w.f.script_by_reference && drop_wit_key(w, &[3, 6, 7]),
         Mut::DropDatum => plutus && drop_wit_key(w, &[4]),
         Mut::DropRedeemer => plutus && drop_wit_key(w, &[5]),
         Mut::AlterAuxDataKeepHash => {
@@ -264,7 +319,7 @@ fn apply(m: Mut, spec: &Spec, w: &mut World) -> bool {
 }
 
 fn needs_reforge(m: Mut) -> bool {
-    matches!(m, Mut::BodyNetworkIdWrong | Mut::OutputNetworkWrong | Mut::WrongTotalCollateral | Mut::WrongAuxHash | Mut::AuxDataWithoutHash | Mut::HashWithoutAuxData | Mut::WrongScriptDataHash)
+    matches!(m, Mut::BodyNetworkIdWrong | Mut::OutputNetworkWrong | Mut::WrongTotalCollateral | Mut::DropScriptReference | Mut::WrongAuxHash | Mut::AuxDataWithoutHash | Mut::HashWithoutAuxData | Mut::WrongScriptDataHash)
 }
 
 fn check(c: &Case, obs: &mut Obs) -> Result<(), Fail> {
@@ -339,9 +394,18 @@ fn check(c: &Case, obs: &mut Obs) -> Result<(), Fail> {
         return Ok(());
     }
     let era_fam = if era <= EraK::Mary { "shelley_ma" } else { era.name() };
-    pv_ensure!(matches!(r, run::Outcome::Rejected(_)),
-        format!("rule-not-enforced:{}:{}", era_fam, applied.iter().map(|m| format!("{m:?}")).collect::<Vec<_>>().join("+")),
-        "an accepted {} transaction is still accepted after {:?}", era.name(), applied);
+    // one root cause gets one signature: the Babbage / Conway validators run the collateral rules only when the
+    // witness set holds a Plutus script, so every collateral rule is skipped for a script supplied by reference
+    let collateral_family = |m: &Mut| {
+        matches!(m, Mut::RemoveCollateralUtxo | Mut::NoCollateralAllowed | Mut::CollateralToScriptAddress | Mut::CollateralWithAssets | Mut::CollateralTooSmall
+            | Mut::CollateralJustBelowMinimum | Mut::RaiseCollateralPercentage | Mut::PercentageJustAboveCollateral | Mut::WrongTotalCollateral)
+    };
+    let sig = if w.f.script_by_reference && applied.iter().all(collateral_family) {
+        format!("collateral-rules-skipped:{}:script-by-reference", era_fam)
+    } else {
+        format!("rule-not-enforced:{}:{}", era_fam, applied.iter().map(|m| format!("{m:?}")).collect::<Vec<_>>().join("+"))
+    };
+    pv_ensure!(matches!(r, run::Outcome::Rejected(_)), sig, "an accepted {} transaction is still accepted after {:?}", era.name(), applied);
     obs.nontrivial();
     Ok(())
 }
@@ -357,13 +421,13 @@ fn fit(mut spec: Spec, m: Mut, spare: &forge::PlutusS, salt: u8) -> Spec {
     let need_plutus = matches!(
         m,
         Mut::NoCollateralAllowed | Mut::CollateralToScriptAddress | Mut::CollateralWithAssets | Mut::CollateralTooSmall | Mut::RaiseCollateralPercentage
-            | Mut::WrongTotalCollateral | Mut::DropPlutusScript | Mut::DropDatum | Mut::DropRedeemer | Mut::WrongScriptDataHash | Mut::RemoveCollateralUtxo
-            | Mut::AlterCostModel | Mut::DropCostModel
+            | Mut::CollateralJustBelowMinimum | Mut::PercentageJustAboveCollateral | Mut::WrongTotalCollateral | Mut::DropPlutusScript | Mut::DropDatum | Mut::DropRedeemer | Mut::WrongScriptDataHash | Mut::RemoveCollateralUtxo
+            | Mut::AlterCostModel | Mut::DropCostModel | Mut::DropScriptReference
     );
     if need_plutus {
         let from = match m {
             Mut::AlterCostModel | Mut::DropCostModel => EraK::Conway,
-            Mut::WrongTotalCollateral => EraK::Babbage,
+            Mut::WrongTotalCollateral | Mut::DropScriptReference => EraK::Babbage,
             _ => EraK::Alonzo,
         };
         if spec.era < from {
@@ -375,6 +439,19 @@ fn fit(mut spec: Spec, m: Mut, spare: &forge::PlutusS, salt: u8) -> Spec {
         if m == Mut::WrongTotalCollateral {
             if let Some(p) = &mut spec.plutus {
                 p.total_collateral = true;
+            }
+        }
+        if m == Mut::CollateralJustBelowMinimum {
+            if let Some(p) = &mut spec.plutus {
+                p.total_collateral = false;
+            }
+        }
+        if m == Mut::DropScriptReference {
+            if let Some(p) = &mut spec.plutus {
+                p.via_reference = true;
+                if spec.era == EraK::Babbage {
+                    p.version = 2; // PlutusV1 cannot be combined with reference inputs in Babbage
+                }
             }
         }
     }
@@ -400,6 +477,19 @@ fn fit(mut spec: Spec, m: Mut, spare: &forge::PlutusS, salt: u8) -> Spec {
                 spec.body_network_id = true;
             }
         }
+        Mut::RemoveReferenceUtxo => {
+            if spec.era < EraK::Babbage {
+                spec.era = later(EraK::Babbage, salt);
+            }
+            if spec.ref_inputs == 0 {
+                spec.ref_inputs = 1 + salt % 2;
+            }
+            if spec.era == EraK::Babbage {
+                if let Some(p) = &mut spec.plutus {
+                    p.version = 2;
+                }
+            }
+        }
         Mut::DropNativeScriptOfMint => {
             if spec.era < EraK::Mary {
                 spec.era = later(EraK::Mary, salt);
@@ -414,10 +504,10 @@ fn fit(mut spec: Spec, m: Mut, spare: &forge::PlutusS, salt: u8) -> Spec {
 }
 
 pub fn run(s: &Session) {
-    s.set_rule("accepted TxForge transactions of every post-Byron era under 28 rule-specific mutators (empty inputs; spent / \
+    s.set_rule("accepted TxForge transactions of every post-Byron era under 32 rule-specific mutators (empty inputs; spent / \
         collateral UTxO entry removed; slot past ttl / before validity start; minimum ada raised; maximum value size lowered; \
-        network id of the environment, of the body, of an output flipped; collateral count limit, kind, amount, percentage, \
-        annotation; native script of a mint, Plutus script, datum, redeemer dropped; auxiliary data altered / dropped with the \
+        network id of the environment, of the body, of an output flipped; collateral count limit, kind, amount (far below and exactly one lovelace below the minimum), percentage (far above and \
+        exactly one point above what the collateral covers), annotation; reference input missing from the UTxO, script reference dropped; native script of a mint, Plutus script, datum, redeemer dropped; auxiliary data altered / dropped with the \
         hash kept, wrong hash, data without a hash in the body, hash without data; wrong script-data hash; cost model altered / removed). Body-level mutators are re-signed. \
         Singles exhaustively per generated transaction (every applicable mutator alone) and random pairs. Oracle: validation \
         fails. Non-trivial = a mutator applied to an accepted base; distinct = distinct (recipe, mutators)");
